@@ -182,6 +182,10 @@ def contain_output(rel: str, use_manifest: bool, exists: bool) -> bool:
     def call():
         with b.output_to_relative_path(rel):
             b.emit('x')
+        if man is not None:
+            # the same output requested again in the same manifest run must not be written either
+            with b.output_to_relative_path(rel):
+                b.emit('y')
     return _check(call, join(ROOT, rel), man)
 
 
